@@ -301,6 +301,31 @@ def local_tasks(oracles, ns=(1, 2, 3), exits=False, flags=False):
     return tasks
 
 
+def c02_extra(tier):
+    """Failures inside one node queue (which blockers are removed when) and commands that cannot be spawned."""
+    tasks = local_tasks(["C02"], ns=(3,) if tier == "quick" else (3, 4), exits=True)
+    for gi, bb in enumerate(S.dags(3)):
+        if not any(bb):
+            continue
+        for ec in bits(3):
+            if not any(ec):
+                continue
+            for nproc in (1, 2):
+                sc = mk_scen(bb, dict(size=3, nproc=nproc), exit_codes=ec)
+                tasks.append(dict(id=f"onebatch-g3.{gi}-e{''.join(map(str, ec))}-q{nproc}", scen=sc, oracles=["Obs", "C02"], budget=(0, 0), cls="one-batch+failures"))
+    for g in ("chain2", "fork", "join", "chain3"):
+        bb = S.REP[g]
+        for tag, gkw, mode in (("one-batch", dict(size=8, nproc=2), "hpc"), ("sz1", dict(size=1), "hpc"), ("local", dict(nproc=2), "local")):
+            for victim in range(len(bb)):
+                if not any(victim in l for l in bb):
+                    continue  # only jobs that block somebody
+                kw = dict(mode="local", actors=[]) if mode == "local" else {}
+                sc = mk_scen(bb, gkw, **kw)
+                sc["spawn_fail"] = [S.NAMES[victim]]
+                tasks.append(dict(id=f"spawnfail-{g}-{tag}-{S.NAMES[victim]}", scen=sc, oracles=["Obs", "C02"], budget=(0, 0), cls="spawn-failure"))
+    return tasks
+
+
 @check("C02")
 def c02(tier):
     some_fail = lambda n: [None, (1,) + (0,) * (n - 1), (0,) * (n - 1) + (1,)] if n > 1 else [None, (1,)]
@@ -310,13 +335,15 @@ def c02(tier):
         tasks += rep_tasks(["C02"], (1, 0), graphs=["chain3", "chain3r", "fork", "join", "diamond", "diamondr"],
                            exit_sets=some_fail, cancel_sets=flags)
         tasks += local_tasks(["C02"])
-        bounds = "G(1..3) x parameter grid at budget 0; 6 REP graphs x 4 parameter sets x exit codes x flags at 1 preemption; local mode on G(1..3) x processes 1-2"
+        tasks += c02_extra(tier)
+        bounds = "failures inside one queue (local mode and one batch, all finish orders) on G(3); unspawnable commands; G(1..3) x parameter grid at budget 0; 6 REP graphs x 4 parameter sets x exit codes x flags at 1 preemption; local mode on G(1..3) x processes 1-2"
     else:
         tasks = input_grid_tasks(["C02"], ns=(1, 2, 3))
         tasks += input_grid_tasks(["C02"], ns=(4,), two_groups=False, max_nodes=(1, None), caps=(3,))
         tasks += rep_tasks(["C02"], (2, 0), exit_sets=some_fail, cancel_sets=flags)
         tasks += local_tasks(["C02"], ns=(1, 2, 3, 4))
-        bounds = "G(1..4) at budget 0; all REP graphs at 2 preemptions; local mode on G(1..4)"
+        tasks += c02_extra(tier)
+        bounds = "failures inside one queue on G(3..4); unspawnable commands; G(1..4) at budget 0; all REP graphs at 2 preemptions; local mode on G(1..4)"
     return explore_check("C02", tier, tasks, S_RULE, COMMON_ASSUMPTIONS, dict(bounds=bounds))
 
 
@@ -738,7 +765,24 @@ def c16(tier):
                         bud = b if (tier == "thorough" or (g in ("pair", "fork") and tag == "sz1")) and mode == "hpc" else (0, 0)
                         tasks.append(dict(id=f"hooks{ctag}-{g}-{tag}-e{ec}-x{len(hx)}", scen=sc,
                                           oracles=["Obs", "C16"], budget=bud, cls=f"hooks{ctag}+{mode}"))
-    bounds = "all 16 set/unset combinations of the four lifecycle commands x 4 REP graphs x {1 batch per job, one batch, 2 per batch, local}; failing teardown hooks; budget 1 on the multi-batch scenarios"
+    # two submission groups (JADE_SUBMISSION_GROUP must be the batch's own group)
+    allhooks = dict(HOOKS)
+    for g in ("pair", "twocomp", "indep3"):
+        bb = S.REP[g]
+        for names in (None, ["zz_first", "aa_second"]):
+            sc = mk_scen(bb, dict(size=1, max_nodes=2), assign=tuple(i % 2 for i in range(len(bb))), hooks=allhooks, gnames=names)
+            tasks.append(dict(id=f"hooks-2groups-{g}-{'za' if names else 'dg'}", scen=sc, oracles=["Obs", "C16"], budget=(0, 0), cls="hooks+2groups"))
+    # a resubmission: teardown again, setup not
+    for g in ("chain2", "pair", "chain3"):
+        bb = S.REP[g]
+        n = len(bb)
+        for ec, fl in (((1,) * n, (1, 1, 0)), ((1,) + (0,) * (n - 1), (1, 1, 0)), ((0,) * n, (0, 0, 1))):
+            actors = [rec_actor(n), dict(name="resub", argv=resub_argv(*fl), host="login1", guard="complete"),
+                      dict(name="rec2", argv=["jade", "try-submit-jobs", "{out}"], host="login2", guard="idle_incomplete", after="resub", repeat=n + 2)]
+            sc = mk_scen(bb, dict(size=1, max_nodes=None), hooks=allhooks, actors=actors)
+            sc["exit_codes"] = {S.NAMES[i]: [c, 0] for i, c in enumerate(ec) if c}
+            tasks.append(dict(id=f"hooks-resub-{g}-e{''.join(map(str, ec))}-f{''.join(map(str, fl))}", scen=sc, oracles=["Obs", "C16"], budget=(0, 0), cls="hooks+resubmit"))
+    bounds = "two submission groups; resubmissions (all / some / successful jobs); all 16 set/unset combinations of the four lifecycle commands x 4 REP graphs x {1 batch per job, one batch, 2 per batch, local}; failing teardown hooks; budget 1 on the multi-batch scenarios"
     return explore_check("C16", tier, tasks, S_RULE, COMMON_ASSUMPTIONS, dict(bounds=bounds))
 
 
@@ -785,6 +829,31 @@ def c13_tasks(tier):
                                 tasks.append(dict(id=f"resub-{g}-e{''.join(map(str, ec))}{second}-c{cancel[0]}-l{int(bool(lost))}-r{int(reports)}-f{''.join(map(str, fl))}",
                                                   scen=sc, oracles=["Obs", "C13"], budget=(0, 0),
                                                   cls="resubmit-complete" + ("+no-reports" if not reports else "")))
+    # every 3-job DAG (listing order vs dependency order) with a failing job
+    for gi, bb in enumerate(S.dags(3)):
+        if not any(bb):
+            continue
+        for f in range(3):
+            for cancel in ((0, 0, 0), (1, 1, 1)):
+                ec = tuple(1 if k == f else 0 for k in range(3))
+                codes = {S.NAMES[i]: [c, 0] for i, c in enumerate(ec) if c}
+                actors = [rec_actor(3), dict(name="resub", argv=resub_argv(1, 1, 0), host="login1", guard="complete"),
+                          dict(name="rec2", argv=["jade", "try-submit-jobs", "{out}"], host="login2", guard="idle_incomplete", after="resub", repeat=5)]
+                for tag, gkw in (("sz1", dict(size=1, max_nodes=None)),) + ((("sz3", dict(size=3, max_nodes=None)),) if tier == "thorough" or gi % 3 == 0 else ()):
+                    sc = mk_scen(bb, gkw, cancel=cancel, actors=actors)
+                    sc["exit_codes"] = codes
+                    tasks.append(dict(id=f"resub-g3.{gi}-f{f}-c{cancel[0]}-{tag}", scen=sc, oracles=["Obs", "C13"], budget=(0, 0), cls="resubmit-complete+g3"))
+    # resubmit-jobs as soon as the completion flag is on disk (the completing submitter may still hold the role)
+    for g in ("chain2", "pair", "chain3"):
+        bb = S.REP[g]
+        n = len(bb)
+        for host in ("login1", "n10%d" % n):
+            actors = [rec_actor(n), dict(name="resub", argv=resub_argv(1, 1, 1), host=host, guard="complete_any"),
+                      dict(name="rec2", argv=["jade", "try-submit-jobs", "{out}"], host="login2", guard="idle_incomplete", after="resub", repeat=n + 2),
+                      dict(name="resub2", argv=resub_argv(1, 1, 1), host="login1", guard="complete", after="resub"),
+                      dict(name="rec3", argv=["jade", "try-submit-jobs", "{out}"], host="login2", guard="idle_incomplete", after="resub2", repeat=n + 2)]
+            sc = mk_scen(bb, dict(size=1, max_nodes=None), actors=actors)
+            tasks.append(dict(id=f"resub-at-completion-{g}-{host}", scen=sc, oracles=["Obs", "C13"], budget=(0, 0) if tier == "quick" else (1, 0), cls="resubmit-at-completion"))
     # refusal on an incomplete submission: the command starts at any point (free start), also on the
     # host of the current submitter
     for g in (["chain3", "indep3"] if tier == "quick" else ["chain3", "indep3", "fork", "diamond"]):
@@ -812,7 +881,7 @@ def c13_tasks(tier):
 def c13(tier):
     tasks = c13_tasks(tier)
     bounds = ("completed submissions produced by the real code for REP graphs x single failures (rerun succeeds / fails again) x cancel flags x one refused batch (missing jobs) x reports on/off, "
-              "then resubmit-jobs with all 8 flag combinations run to completion (and a second resubmission); resubmit-jobs as a free-start actor at every point of an incomplete submission from 3 hosts; cancel then resubmit")
+              "then resubmit-jobs with all 8 flag combinations run to completion (and a second resubmission); every 3-job DAG x failing job x cancel flags; resubmit-jobs as soon as the completion flag is on disk; resubmit-jobs as a free-start actor at every point of an incomplete submission from 3 hosts; cancel then resubmit")
     return explore_check("C13", tier, tasks, S_RULE, COMMON_ASSUMPTIONS, dict(bounds=bounds))
 
 
@@ -856,6 +925,13 @@ def c15_tasks(tier):
                 bud = (1, 0) if (n <= 2 or tier == "thorough") else (0, 0)
                 tasks.append(dict(id=f"pipe-{'+'.join(combo)}-f{len(fails)}-b{bud[0]}", scen=sc,
                                   oracles=["Obs", "C15"], budget=bud, cls="pipeline"))
+                if not fails and "two-batches" in combo and (n <= 2 or tier == "thorough"):
+                    import copy
+
+                    sc3 = copy.deepcopy(sc)
+                    sc3["refuse_scripts"] = ["job_batch_2.sh"]  # every stage that has a second batch loses it
+                    tasks.append(dict(id=f"pipe-{'+'.join(combo)}-lostbatch", scen=sc3, oracles=["Obs", "C15"],
+                                      budget=(0, 0), cls="pipeline+lost-batch"))
                 if not fails and ((tier == "thorough" and n in (2, 3)) or (n == 2 and combo[0] in ("one", "two-batches"))):
                     # a duplicated trigger for stage 2 (re-run by hand or delivered twice), at any later point
                     import copy
@@ -873,7 +949,7 @@ def c15_tasks(tier):
 def c15(tier):
     tasks = c15_tasks(tier)
     bounds = ("pipelines of 1-3 (thorough 4) stages over 5 stage shapes (1 job; 2 jobs in 2 batches; 2 jobs in 1 batch; 2-job chain; local), stage configs with and without their own submission groups, "
-              "a failing job in stage 1, a duplicated stage-2 trigger at any later point; jade pipeline submit as the login process, next stages triggered by the real submit-next-stage; 1 preemption on <=2-stage pipelines (all in thorough) with the recovery actor on the current stage")
+              "a failing job in stage 1, a refused batch (stage ends with missing jobs), a duplicated stage-2 trigger at any later point; jade pipeline submit as the login process, next stages triggered by the real submit-next-stage; 1 preemption on <=2-stage pipelines (all in thorough) with the recovery actor on the current stage")
     return explore_check("C15", tier, tasks, S_RULE, COMMON_ASSUMPTIONS + ["auto-config commands are not explored (they write relative to the process cwd); stage config files only"], dict(bounds=bounds))
 
 
@@ -1060,9 +1136,19 @@ def c12(tier):
             t["cls"] = "faults-L2"
             tasks.append(t)
     tasks += cyclic_tasks(["C12"])
+    # a user-run try-submit-jobs (at any point) racing with a node that is lost
+    ur = user_round_tasks(["C12"], (1, 1), ["single", "chain2"] if tier == "quick" else ["single", "pair", "chain2", "indep3"],
+                          params=[("sz1-mxN", dict(size=1, max_nodes=None))])
+    for t in ur:
+        t["fault"] = dict(plan="c12", refuse=False)
+        t["cls"] = "faults+user-round"
+    ur = [t for t in ur if "login7" in t["id"]]
+    for t in ur:
+        t["weight"] = 5
+    tasks += shard([t for t in ur if "-single-" not in t["id"]], 16) + [t for t in ur if "-single-" in t["id"]]
     bounds = (f"{len(graphs)} REP graphs x 2 batchings (x failing job + cancel flags) with every set of <= {fb} faults out of: any sbatch refused on all attempts, "
               "any node killed at any sync point of its job phase (before start, before each launch, at each poll, between a job's exit and its result append, before its try-submit-jobs); "
-              "then the re-armed recovery actor; all 39 cyclic digraphs on 3 jobs x 2 batch sizes x flags (no faults)"
+              "then the re-armed recovery actor; all 39 cyclic digraphs on 3 jobs x 2 batch sizes x flags (no faults); a user-run try-submit-jobs at any point + 1 preemption + 1 node kill on 1-2 job graphs"
               + ("; 1 preemption + 1 fault on 4 graphs; kill points inside the node's critical sections (L2) on 3 graphs" if tier == "thorough" else ""))
     return explore_check("C12", tier, tasks, S_RULE + "; fault alternatives cost 1 from a separate fault budget", COMMON_ASSUMPTIONS + [
         "a refused sbatch is a clean failure (the scheduler did not accept the job); a killed node is gone from squeue at once",
